@@ -14,6 +14,7 @@ EXPLANATION = ("Props/C19.lean: every vector operation of the model is the compo
 ASSUMPTIONS = []
 
 _groups = []   # (vector line index, [component line indices], kind)
+TWINS = []
 
 
 def fmt(p):
@@ -31,6 +32,7 @@ def rpoly(rng, lo, hi):
 def requests(tier, rng):
     global _groups
     _groups = []
+    del TWINS[:]
     L = []
     reps = 1 if tier == "quick" else 6
     def add(vline, comps, kind):
@@ -68,6 +70,16 @@ def requests(tier, rng):
                                           ("k_sub", k, "poly::sub_ip", -2**29, 2**29)]:
                 w = [rpoly(rng, lo, hi) for _ in range(n)]; v = [rpoly(rng, lo, hi) for _ in range(n)]
                 add("polyvec::%s::%s %s %s" % (lv, fn, V(w), V(v)), ["%s %s %s" % (pfn, fmt(a), fmt(b)) for a, b in zip(w, v)], fn)
+            # the polynomial-level add / sub in their two forms (returning a new polynomial / in place) must agree
+            for _r in range(2):
+                a = rpoly(rng, -2**29, 2**29); b = rpoly(rng, -2**29, 2**29)
+                if _r:
+                    a = [(0, 1, -1, 2**30 - 1, -2**30)[j % 5] for j in range(256)]; b = [(0, -1, 1, 2**30, -2**30)[(j // 5) % 5] for j in range(256)]
+                for op in ("add", "sub"):
+                    x = "poly::%s %s %s" % (op, fmt(a), fmt(b)); y = "poly::%s_ip %s %s" % (op, fmt(a), fmt(b))
+                    if x not in L:
+                        L.append(x); L.append(y)
+                        TWINS.append((x, y, "poly::%s (new polynomial) and poly::%s_ip (in place) must give the same coefficients" % (op, op)))
             for (fn, n) in [("l_pointwise_poly_montgomery", l), ("k_pointwise_poly_montgomery", k)]:
                 a = rpoly(rng, -9 * Q + 1, 9 * Q - 1); v = [rpoly(rng, -9 * Q + 1, 9 * Q - 1) for _ in range(n)]
                 add("polyvec::%s::%s %s %s" % (lv, fn, fmt(a), V(v)), ["poly::pointwise_montgomery %s %s" % (fmt(a), fmt(x)) for x in v], fn)
